@@ -72,6 +72,35 @@ STRENGTHENED4 = {
     "C19": "one call with 420 000 queries; training buffers overwritten after fit",
     "C20": "-",
 }
+STRENGTHENED5 = {
+    "C01": "-",
+    "C02": "the seeded global generator with random_state=None",
+    "C03": "a fit aborted inside the user's regressor, then repeated (abortable regressor classes)",
+    "C04": "a fit aborted inside the user's regressor, then repeated",
+    "C05": "queries refused for a wrong feature count before the judged ones; hyper-parameters as NumPy scalars (center=np.True_)",
+    "C06": "-",
+    "C07": "staged fits with a refused (shrinking) warm start in between",
+    "C08": "-",
+    "C09": "a refused call, then the fit (hyper-parameters unchanged, equal to a fresh fit); n_to_select None / fraction scenarios; Ridge2FoldCV with the seeded global generator",
+    "C10": "a fit aborted inside a user scorer, then repeated; folds from the seeded global generator",
+    "C11": "refits refused for unusable weights before the transforms; flags as NumPy booleans",
+    "C12": "refits refused for unusable weights before the transforms; K_nm and K_mm passed as views of one kernel",
+    "C13": "a user estimator object re-used after a refused call; one scaler object as scaler= and inside the estimator pipeline",
+    "C14": "one 0-d array object holding tol for every fit; use after a refit that is refused late",
+    "C15": "refused periodic calls before free-space calls; squared as a NumPy boolean",
+    "C16": "a successful fit, then refused fits, then the judged fit on the same object; weights as ranks in unsigned dtypes",
+    "C17": "a fit repeated after an abort inside the user's metric; weights that are a view of a descriptor column",
+    "C18": "a fit repeated after an abort inside the linear estimator; the mode flag as a NumPy boolean",
+    "C19": "refits refused by Qhull before the queries; one from-the-end index array shared with a hull on a wider table",
+    "C20": "alpha as one shared array object; a refused component-wise call before the judged ones",
+}
+FIRST5 = {}
+_p5 = os.path.join(VERIF, "seeded", "round5_first_run.log")
+if os.path.exists(_p5):
+    for line in open(_p5):
+        m_ = re.match(r"(C\d\d-r5[hi])\s+C\d\d:(\w+)", line)
+        if m_:
+            FIRST5[m_.group(1)] = m_.group(2)
 FIRST4 = {}
 _p4 = os.path.join(VERIF, "seeded", "round4_first_run.log")
 if os.path.exists(_p4):
@@ -98,19 +127,26 @@ def squash(t, n):
     return t if len(t) <= n else t[: n - 1].rsplit(" ", 1)[0] + " ..."
 
 
-for mf in sorted(glob.glob(os.path.join(VERIF, "seeded", "*-r[234]*", "meta.json"))):
+for mf in sorted(glob.glob(os.path.join(VERIF, "seeded", "*-r[2345]*", "meta.json"))):
     d = os.path.dirname(mf)
     m = json.load(open(mf))
     notes = open(os.path.join(d, "NOTES.md")).read()
     title = notes.splitlines()[0].lstrip("# ").strip()
-    title = re.sub(r"^(C\d\d\s*/?\s*)?(seed|defect)?\s*\(?[abcdefg]\)?\s*(?=[-—:(/ ])", "", title, flags=re.I).lstrip(" -—:/").strip()
+    title = re.sub(r"^(C\d\d\s*/?\s*)?(seed|defect)?\s*\(?[abcdefghi]\)?\s*(?=[-—:(/ ])", "", title, flags=re.I).lstrip(" -—:/").strip()
     m["breaks"] = squash(title, 220)
     m["needs"] = squash(section(notes, "need|manifest"), 330)
     kind = m["name"][-1]
-    m["kind"] = {"a": "history / state dependent", "b": "numeric regime dependent", "c": "configuration / argument-form dependent", "d": "boundary / extreme-size dependent", "e": "entry-point / protocol dependent", "f": "order / randomness / accumulation dependent", "g": "free choice (meant to survive a randomized oracle campaign)"}[kind]
+    m["kind"] = {"a": "history / state dependent", "b": "numeric regime dependent", "c": "configuration / argument-form dependent", "d": "boundary / extreme-size dependent", "e": "entry-point / protocol dependent", "f": "order / randomness / accumulation dependent", "g": "free choice (meant to survive a randomized oracle campaign)", "h": "failure in the history / exception safety", "i": "aliasing / exotic argument / caller environment"}[kind]
     rel = os.path.relpath(mf, VERIF)
     p = subprocess.run(["git", "-C", VERIF, "show", f"{FIRST}:{rel}"], capture_output=True, text=True)
     first = None
+    if "-r5" in m["name"]:
+        first = FIRST5.get(m["name"])
+        m["first_verdict"] = first
+        m["history"] = "caught as filed" if first == "caught" else f"{first or 'not run'} as filed; caught after the check gained: {STRENGTHENED5.get(m['property'], '?')}"
+        json.dump(m, open(mf, "w"), indent=1)
+        print(m["name"], first, "|", m["breaks"][:80], "|", m["needs"][:60])
+        continue
     if "-r4" in m["name"]:
         first = FIRST4.get(m["name"])
         m["first_verdict"] = first
